@@ -17,7 +17,8 @@ EXTENDS Naturals, Sequences, TLC
 CONSTANTS MaxChunk,   \* chunk lengths 0..MaxChunk
           MaxChunks,  \* 1..MaxChunks chunks per run
           Bug         \* "none" or a wrong variant: "local_esc" (the ESC flag does not survive the end of a piece),
-                      \* "esc_end_flushes_only" (ESC END does not clear the flag), "no_lead_end" is NOT wrong (RFC 1055) and must pass
+                      \* "esc_sticky" (the flag is not cleared by the byte it escapes), "enc_no_esc_esc" (the encoder lets ESC through);
+                      \* "no_lead_end" (no END in front of a frame) is NOT wrong (plain RFC 1055) and must pass
 
 END == "END"  ESC == "ESC"  EEND == "EEND"  EESC == "EESC"  X == "x"
 Alphabet == {END, ESC, EEND, EESC, X}
@@ -25,7 +26,7 @@ Alphabet == {END, ESC, EEND, EESC, X}
 (* ---- SLIPEncodeBytes --------------------------------------------------- *)
 RECURSIVE EncBody(_)
 EncBody(c) == IF c = <<>> THEN <<>>
-              ELSE (IF c[1] = END THEN <<ESC, EEND>> ELSE IF c[1] = ESC THEN <<ESC, EESC>> ELSE <<c[1]>>) \o EncBody(Tail(c))
+              ELSE (IF c[1] = END THEN <<ESC, EEND>> ELSE IF c[1] = ESC /\ Bug # "enc_no_esc_esc" THEN <<ESC, EESC>> ELSE <<c[1]>>) \o EncBody(Tail(c))
 Enc(c) == (IF Bug = "no_lead_end" THEN <<>> ELSE <<END>>) \o EncBody(c) \o <<END>>
 RECURSIVE EncAll(_)
 EncAll(cs) == IF cs = <<>> THEN <<>> ELSE Enc(cs[1]) \o EncAll(Tail(cs))
@@ -39,7 +40,7 @@ Byte(d, b) ==
                     [] b = EEND -> [d EXCEPT !.pend = Append(@, END)]
                     [] b = EESC -> [d EXCEPT !.pend = Append(@, ESC)]
                     [] OTHER    -> [d EXCEPT !.pend = Append(@, b)]        \* protocol violation, let through like the reference implementation
-        IN [d2 EXCEPT !.esc = (Bug = "esc_end_flushes_only" /\ b = END)]
+        IN [d2 EXCEPT !.esc = (Bug = "esc_sticky")]
    ELSE LET d2 == CASE b = END -> Flush(d)
                     [] b = ESC -> d
                     [] OTHER   -> [d EXCEPT !.pend = Append(@, b)]
